@@ -23,6 +23,8 @@ pub enum Kind {
 
 #[derive(Clone, Debug, PartialEq)]
 pub enum Call {
+  /// subscribe observer i through `.take(k)`: it leaves by itself at its k-th item, possibly in the middle of a synchronous emission
+  SubTake(usize, usize),
   Sub(usize),
   Unsub(usize),
   Connect,
@@ -42,6 +44,7 @@ pub enum Src {
 fn show(h: &[Call]) -> String {
   h.iter()
     .map(|c| match c {
+      Call::SubTake(i, k) => format!("subscribe_{}.take({})", i, k),
       Call::Sub(i) => format!("subscribe_{}", i),
       Call::Unsub(i) => format!("unsubscribe_{}", i),
       Call::Connect => "connect".into(),
@@ -71,13 +74,18 @@ pub fn histories(kind: Kind, hot: bool, max_len: usize) -> Vec<Vec<Call>> {
     // after the source's terminal the inner subject is terminated: what a late
     // subscriber of a plain Subject gets is not fixed -> only unsubscribes follow
     if !st.src_done && st.n_sub < 3 {
-      cur.push(Call::Sub(st.n_sub));
-      st.n_sub += 1;
-      st.live.push(true);
-      rec(cur, st, kind, hot, max_len, out);
-      st.live.pop();
-      st.n_sub -= 1;
-      cur.pop();
+      // take(k) subscribers not for replay(): whether a subscriber that ends during the
+      // hand-over of the history had already connected the source, and how much of a
+      // synchronous emission the history keeps after it left, is not fixed by the statement
+      for variant in 0..(if kind == Kind::Replay { 1 } else { 3usize }) {
+        cur.push(if variant == 0 { Call::Sub(st.n_sub) } else { Call::SubTake(st.n_sub, variant) });
+        st.n_sub += 1;
+        st.live.push(true);
+        rec(cur, st, kind, hot, max_len, out);
+        st.live.pop();
+        st.n_sub -= 1;
+        cur.pop();
+      }
     }
     for i in 0..st.n_sub {
       if st.live[i] {
@@ -134,111 +142,157 @@ struct RefOut {
   valid_until: usize,
 }
 
+struct RefState {
+  kind: Kind,
+  live: Vec<usize>,
+  quota: Vec<Option<usize>>,
+  got: Vec<usize>,
+  history: Vec<i64>,
+  subject_terminal: Option<Ev>,
+  connected: bool,
+  src_total: usize,
+}
+impl RefState {
+  /// deliver a source event into the shared subject
+  fn deliver(&mut self, ev: &Ev, exp: &mut Vec<Vec<Ev>>) {
+    if self.subject_terminal.is_some() {
+      return;
+    }
+    match ev {
+      Ev::N(d) => {
+        self.history.push(d.i());
+        for o in self.live.clone() {
+          self.give(o, ev.clone(), exp);
+        }
+      }
+      t => {
+        self.subject_terminal = Some(t.clone());
+        for o in self.live.clone() {
+          exp[o].push(t.clone());
+        }
+        self.live.clear();
+        self.connected = false;
+      }
+    }
+  }
+  /// hand one item to observer o, honouring its take(k)
+  fn give(&mut self, o: usize, ev: Ev, exp: &mut Vec<Vec<Ev>>) {
+    if !self.live.contains(&o) {
+      return;
+    }
+    exp[o].push(ev);
+    self.got[o] += 1;
+    if let Some(k) = self.quota[o] {
+      if self.got[o] >= k {
+        exp[o].push(Ev::C);
+        self.leave(o);
+      }
+    }
+  }
+  fn leave(&mut self, o: usize) {
+    let was = self.live.contains(&o);
+    self.live.retain(|x| *x != o);
+    if self.kind != Kind::Publish && was && self.live.is_empty() {
+      self.connected = false;
+    }
+  }
+  fn connect(&mut self, src: &Src, exp: &mut Vec<Vec<Ev>>) {
+    if self.connected {
+      return;
+    }
+    self.connected = true;
+    self.src_total += 1;
+    if let Src::Cold(script) = src {
+      for ev in script {
+        if !self.connected {
+          break;
+        }
+        self.deliver(ev, exp);
+        if ev.is_terminal() {
+          self.connected = false;
+        }
+      }
+    }
+  }
+}
+
 fn reference(kind: Kind, src: &Src, h: &[Call]) -> RefOut {
-  let n_obs = h.iter().filter(|c| matches!(c, Call::Sub(_))).count();
-  let mut live: Vec<usize> = vec![];
-  let mut history: Vec<i64> = vec![];
-  let mut subject_terminal: Option<Ev> = None;
-  let mut connected = false; // a live source subscription exists
-  let mut src_total = 0usize;
+  let n_obs = h.iter().filter(|c| matches!(c, Call::Sub(_) | Call::SubTake(..))).count();
+  let mut st = RefState {
+    kind,
+    live: vec![],
+    quota: vec![None; n_obs],
+    got: vec![0; n_obs],
+    history: vec![],
+    subject_terminal: None,
+    connected: false,
+    src_total: 0,
+  };
   let mut exp_all = vec![];
   let mut src_live = vec![];
   let mut src_total_at = vec![];
   let mut valid_until = h.len();
   for (si, c) in h.iter().enumerate() {
     let mut exp: Vec<Vec<Ev>> = vec![vec![]; n_obs];
-    // deliver a source event into the shared subject
-    let mut deliver = |ev: &Ev, live: &mut Vec<usize>, history: &mut Vec<i64>, subject_terminal: &mut Option<Ev>, connected: &mut bool, exp: &mut Vec<Vec<Ev>>| {
-      if subject_terminal.is_some() {
-        return;
-      }
-      match ev {
-        Ev::N(d) => {
-          history.push(d.i());
-          for o in live.iter() {
-            exp[*o].push(ev.clone());
-          }
-        }
-        t => {
-          *subject_terminal = Some(t.clone());
-          for o in live.iter() {
-            exp[*o].push(t.clone());
-          }
-          live.clear();
-          *connected = false;
-        }
-      }
-    };
-    // (re)connect: subscribe the source; a cold source plays synchronously
-    macro_rules! connect {
-      () => {
-        if !connected {
-          connected = true;
-          src_total += 1;
-          if let Src::Cold(script) = src {
-            for ev in script {
-              if !connected {
-                break;
-              }
-              deliver(ev, &mut live, &mut history, &mut subject_terminal, &mut connected, &mut exp);
-              if ev.is_terminal() {
-                // the source's own terminal ends that source subscription
-                connected = false;
-              }
-            }
-          }
-        }
-      };
-    }
     match c {
-      Call::Sub(i) => {
-        if let Some(t) = &subject_terminal {
+      Call::Sub(_) | Call::SubTake(..) => {
+        let (i, q) = match c {
+          Call::Sub(i) => (*i, None),
+          Call::SubTake(i, k) => (*i, Some(*k)),
+          _ => unreachable!(),
+        };
+        st.quota[i] = q;
+        if let Some(t) = st.subject_terminal.clone() {
           if kind == Kind::Replay {
-            exp[*i].extend(history.iter().map(|v| Ev::n(*v)));
-            exp[*i].push(t.clone());
+            st.live.push(i);
+            for v in st.history.clone() {
+              st.give(i, Ev::n(v), &mut exp);
+            }
+            if st.live.contains(&i) {
+              exp[i].push(t);
+              st.live.retain(|x| *x != i);
+            }
           } else if valid_until == h.len() {
             valid_until = si;
           }
         } else {
+          st.live.push(i);
           if kind == Kind::Replay {
-            exp[*i].extend(history.iter().map(|v| Ev::n(*v)));
+            for v in st.history.clone() {
+              st.give(i, Ev::n(v), &mut exp);
+            }
           }
-          live.push(*i);
-          if kind != Kind::Publish && live.len() == 1 {
-            connect!();
+          if kind != Kind::Publish && st.live.len() == 1 && st.live.contains(&i) {
+            st.connect(src, &mut exp);
+          } else if kind != Kind::Publish && st.live.is_empty() {
+            // it left again while being handed the history: nothing to connect for
           }
         }
       }
-      Call::Unsub(i) => {
-        let was = live.contains(i);
-        live.retain(|x| x != i);
-        if kind != Kind::Publish && was && live.is_empty() {
-          connected = false;
-        }
-      }
-      Call::Connect => connect!(),
-      Call::Disconnect => connected = false,
+      Call::Unsub(i) => st.leave(*i),
+      Call::Connect => st.connect(src, &mut exp),
+      Call::Disconnect => st.connected = false,
       Call::Emit(v) => {
-        if connected {
-          deliver(&Ev::n(*v), &mut live, &mut history, &mut subject_terminal, &mut connected, &mut exp);
+        if st.connected {
+          st.deliver(&Ev::n(*v), &mut exp);
         }
       }
       Call::SrcComplete => {
-        if connected {
-          deliver(&Ev::C, &mut live, &mut history, &mut subject_terminal, &mut connected, &mut exp);
+        if st.connected {
+          st.deliver(&Ev::C, &mut exp);
         }
       }
       Call::SrcError => {
-        if connected {
-          deliver(&Ev::E(7), &mut live, &mut history, &mut subject_terminal, &mut connected, &mut exp);
+        if st.connected {
+          st.deliver(&Ev::E(7), &mut exp);
         }
       }
     }
     exp_all.push(exp);
-    src_live.push(if connected { 1 } else { 0 });
-    src_total_at.push(src_total);
+    src_live.push(if st.connected { 1 } else { 0 });
+    src_total_at.push(st.src_total);
   }
-  RefOut { exp: exp_all, src_live, src_total, src_total_at, valid_until }
+  RefOut { exp: exp_all, src_live, src_total: st.src_total, src_total_at, valid_until }
 }
 
 struct RealOut {
@@ -249,7 +303,7 @@ struct RealOut {
 }
 
 fn run_real(kind: Kind, src: &Src, h: &[Call]) -> RealOut {
-  let n_obs = h.iter().filter(|c| matches!(c, Call::Sub(_))).count();
+  let n_obs = h.iter().filter(|c| matches!(c, Call::Sub(_) | Call::SubTake(..))).count();
   let log: Arc<Mutex<Vec<(usize, usize, Ev)>>> = Arc::new(Mutex::new(vec![]));
   let step = Arc::new(AtomicUsize::new(0));
   let src_obs: Arc<Mutex<Vec<Observer<'static, i64>>>> = Arc::new(Mutex::new(vec![]));
@@ -293,11 +347,15 @@ fn run_real(kind: Kind, src: &Src, h: &[Call]) -> RealOut {
     for (si, c) in h.iter().enumerate() {
       step.store(si, Ordering::Relaxed);
       match c {
-        Call::Sub(i) => {
+        Call::Sub(_) | Call::SubTake(..) => {
           let (l1, l2, l3) = (log.clone(), log.clone(), log.clone());
           let (s1, s2, s3) = (step.clone(), step.clone(), step.clone());
-          let i = *i;
-          subs[i] = Some(observable().subscribe(
+          let (i, o) = match c {
+            Call::SubTake(i, k) => (*i, observable().take(*k)),
+            Call::Sub(i) => (*i, observable()),
+            _ => unreachable!(),
+          };
+          subs[i] = Some(o.subscribe(
             move |x| l1.lock().unwrap().push((s1.load(Ordering::Relaxed), i, Ev::n(x))),
             move |e| l2.lock().unwrap().push((s2.load(Ordering::Relaxed), i, Ev::E(err_code(&e)))),
             move || l3.lock().unwrap().push((s3.load(Ordering::Relaxed), i, Ev::C)),
